@@ -1,6 +1,7 @@
 """Episode + ledger replay (engine EP): serves C07 (track record and rewards),
 C08 (FIFO delay and latency pricing) and the episode variant of C01."""
 import math
+import os
 from datetime import datetime, timedelta
 from decimal import Decimal, getcontext
 
@@ -420,6 +421,27 @@ def ledger_episode(ctx, props, chain=False, discrete=False, prebuilt=None):
                      and abs(float(tc["Spread"].iloc[j]) - sum(abs(t.quantity) * t.contract.multiplier * (t.ask_price - t.bid_price) for t in trk[j].trades)) <= 1e-9 * max(1.0, abs(float(tc["Spread"].iloc[j])))
                      for j in range(len(trk)))
             ctx.check("C07:transaction-costs-series", ok)
+            if rng.random() < 0.2:
+                # the record saved to disk and loaded again (and a deep copy of it) says the same as the live one
+                import copy
+                import shutil
+                import tempfile
+                from vf import ROOT
+                from tradingenv.broker.track_record import TrackRecord
+                os.makedirs(os.path.join(ROOT, ".work"), exist_ok=True)
+                d_ = tempfile.mkdtemp(prefix="trk-", dir=os.path.join(ROOT, ".work"))
+                try:
+                    trk.save(d_, "record.pickle")
+                    back = TrackRecord.load(os.path.join(d_, "record.pickle"))
+                finally:
+                    shutil.rmtree(d_, ignore_errors=True)
+                for who, other_ in (("loaded", back), ("deep-copy", copy.deepcopy(trk))):
+                    same = len(other_) == len(trk) and other_.net_liquidation_value().equals(nl) and \
+                        other_.net_liquidation_value(before_rebalancing=False).equals(nl2) and \
+                        other_.transaction_costs(cumulative=False).equals(tc) and \
+                        all(other_[j].time == trk[j].time and len(other_[j].trades) == len(trk[j].trades) for j in range(len(trk)))
+                    ctx.check("C07:record-survives-save-load", same, who=who, entries=[len(other_), len(trk)])
+                ctx.cat("record-saved-and-loaded")
         if isinstance(rw, RewardSimpleReturn) and led.interest == 0.0 and L == 0 and nlv_end is not None and outs:
             # ("when no interest accrues": a zero rate is not enough - a markup charges borrowed cash)
             ctx.check("C07:simple-returns-compound", abs(simple_prod - nlv_end / cash0) <= 1e-9 * max(1.0, led.scale() / cash0) * len(outs),
